@@ -67,3 +67,22 @@ def init_worker(tag):
 def tagged_task(i, tag, fail, dur=0.0, logfile=None):
     r = task(i, tag, fail, dur, logfile)
     return r + (WORKER_TAG[0],)
+
+
+class UnpicklableError(Exception):
+    """an exception that cannot be sent back from a worker process"""
+
+    def __reduce__(self):
+        import threading
+        return (UnpicklableError, (threading.Lock(),))
+
+
+def transport_task(i, tag, how, arg=None):
+    """a task that fails in TRANSPORT on a process pool: its result or its exception cannot be pickled (its argument, when
+    how == 'unpicklable-argument', could not even be sent)"""
+    import threading
+    if how == "unpicklable-result":
+        return threading.Lock()
+    if how == "unpicklable-exception":
+        raise UnpicklableError(tag, i)
+    return (tag, i, WORKER_TAG[0])
